@@ -25,6 +25,11 @@ def cstrN (b : Buf) (p n : Nat) : List Nat := ((b.drop p).take n).takeWhile (· 
 def ReadableN (b : Buf) (p n : Nat) : Prop := p + n ≤ b.length ∨ Terminated b p
 instance (b : Buf) (p n : Nat) : Decidable (ReadableN b p n) := by unfold ReadableN; infer_instance
 
+/-- every unit of the allocation is a value of the `bits`-wide character type (representation
+    invariant of an allocation; the comparison functions order units through it) -/
+def Units (bits : Nat) (b : Buf) : Prop := ∀ x ∈ b, x < 2 ^ bits
+instance (bits : Nat) (b : Buf) : Decidable (Units bits b) := by unfold Units; infer_instance
+
 /-- `dst` with the extent `[d, d + |w|)` replaced by `w`; everything else untouched -/
 def splice (dst : Buf) (d : Nat) (w : List Nat) : Buf := dst.take d ++ w ++ dst.drop (d + w.length)
 
